@@ -147,6 +147,12 @@ def _locate_droplets_in_mask_cartesian(mask: ScalarField) -> Emulsion:
                 v_l, v_h = volumes[i_l - 1], volumes[i_h - 1]
                 pos_l, pos_h = positions[i_l - 1], positions[i_h - 1]
                 pos_h[ax] -= grid.shape[ax]  # wrap around the upper point
+                # clusters that were already merged along another periodic axis might
+                # be given by a different periodic image -> use the one closest to pos_l
+                for a in np.flatnonzero(grid.periodic):
+                    if a != ax:
+                        num_periods = np.round((pos_h[a] - pos_l[a]) / grid.shape[a])
+                        pos_h[a] -= num_periods * grid.shape[a]
                 pos = (pos_l * v_l + pos_h * v_h) / (v_l + v_h)
                 # update both clusters with the new data
                 positions[i_h - 1] = positions[i_l - 1] = pos
